@@ -62,6 +62,12 @@ def cases(tier, seed):
     d.update(geos[0])
     d.update({"fields": list(scope.CASE_FIELDS), "layout": [None, scope.layouts(2, 'idrev')[-1]], "seed": seed, "payload": "coded"})
     out.append({"desc": d, "w": 12})
+    # 27 + 20 boxes in nine / eight binary files, read with 1, 3 and 16 workers (the number of CPUs is visible to the code)
+    d = dict(scope.many_box_mesh())
+    d.update(geos[2])
+    d.update({"fields": ["temp", "density", "Z"], "seed": seed, "payload": ["coded", "signed", "pos"],
+              "layout": [scope.scattered_layout(27, 9), scope.scattered_layout(20, 8)]})
+    out.append({"desc": d, "w": 30, "many": True})
     # FAB header lines longer than 100 bytes (finest of 7 levels in the far corner, 12 fields): one field, the
     # finest grid only (1024 x 128 x 128), identity schedule
     d = dict(scope.deep_corner_mesh())
@@ -113,13 +119,19 @@ def run_case(case, workdir):
                     argv.append("plt00000")
                     exp = (one if deep else cov[..., fi]).astype(dtype)
 
-                    def run(plan):
+                    def run(plan, nw=None):
                         if os.path.exists(outfile):
                             os.remove(outfile)
                         old = sys.argv
                         sys.argv = argv
+                        import unittest.mock
+                        import contextlib
+                        cpus = contextlib.ExitStack()
+                        if nw is not None:
+                            cpus.enter_context(unittest.mock.patch("os.cpu_count", return_value=nw))
+                            cpus.enter_context(unittest.mock.patch("multiprocessing.cpu_count", return_value=nw))
                         try:
-                            with vpool.controlled(plan) as ctl:
+                            with cpus, vpool.controlled(plan, nworkers=nw) as ctl:
                                 r = call(whip.main)
                         except SystemExit as e:
                             r = ("exc", e)
@@ -132,8 +144,11 @@ def run_case(case, workdir):
                                 r = ("exc", e)
                         return ctl, r
                     outs = set()
-                    for plan, ctl, (st, val) in explorer.explore(run, bound=0 if deep else 1):
-                        sub = {"argv": argv, "plan": explorer.plan_json(plan)}
+                    runs_ = explorer.explore(run, bound=0 if deep else 1)
+                    if case.get("many"):
+                        runs_ = [({"workers": nw_},) + run({}, nw_) for nw_ in (1, 3, 16)]
+                    for plan, ctl, (st, val) in runs_:
+                        sub = {"argv": argv, "plan": explorer.plan_json(plan) if "workers" not in plan else plan}
                         rec.exe([dh, sub], nontrivial=(ref.nlevels > 1 or max(c["n"] for c in ctl.calls) > 1),
                                 trans=1 + sum(c["n"] for c in ctl.calls))
                         if st == "exc":
